@@ -487,6 +487,8 @@ void Annotator::AnnotatorImpl::update()
 void Annotator::setModel(const ModelPtr &model)
 {
     pFunc()->mModel = model;
+    // Start afresh: the hash of no model is the same as no hash at all.
+    pFunc()->mIdList.clear();
     pFunc()->mHash = 0;
     pFunc()->update();
 }
